@@ -3,8 +3,9 @@ from contracts import ds
 
 PROPS = {}
 
+from contracts import pelcore as _pc
 PROPS['C05'] = dict(
-    units=list(ds.UNITS),
+    units=list(ds.UNITS) + list(_pc.C05_UNITS),
     level='proof',
     min_obligations=20,
     assumptions=[],
@@ -91,6 +92,27 @@ PROPS['C03'] = dict(
     level='proof',
     min_obligations=100,
     budget_s=150,
+    assumptions=[],
+    explanation="",
+)
+
+from contracts import pelcore
+from contracts import headers as _h, srcsec as _s
+PROPS['C01'] = dict(
+    units=list(pelcore.UNITS) + [_h.EH, _h.MT, _h.LP, _s.SrcToJSON, _s.CalloutU],
+    extra=[pelcore.build_output_enum],
+    level='proof',
+    min_obligations=100,
+    assumptions=[],
+    explanation="",
+)
+
+from contracts import pretty
+PROPS['C06'] = dict(
+    units=[],
+    extra=[pretty.pretty_backend, pretty.pretty_bounded],
+    level='proof',
+    min_obligations=6,
     assumptions=[],
     explanation="",
 )
